@@ -209,7 +209,7 @@ func LedgerDiff(a, b *Ledger) []string {
 // ------------------------------------------------------------------ C06 replay history
 
 type ReplayMonitor struct {
-	Seen   map[common.Hash]uint64            // tx hash -> height
+	Seen   map[common.Hash]uint64               // tx hash -> height
 	Nonces map[common.Address]map[uint16]uint32 // sender -> epoch -> last nonce
 	Txs    []*types.Transaction
 	TxAt   []uint64
